@@ -395,6 +395,9 @@ func (p *Printed) Layout(seps []string) *Laid {
 		if sep == "" && i > 0 && !CanAbut(p.Lexemes[i-1], t) {
 			sep = " "
 		}
+		if i > 0 && strings.HasPrefix(sep, "/") && strings.HasSuffix(p.Lexemes[i-1], "/") {
+			sep = " " + sep // a division sign directly before a comment would become part of it
+		}
 		sb.WriteString(sep)
 		lx[i] = Lex{Text: t, Start: sb.Len(), End: sb.Len() + len(t)}
 		sb.WriteString(t)
